@@ -163,6 +163,10 @@ def e2e_stage(ck):
         n = int(case[1:]) if case[1:].isdigit() else 0
         if case == "CLEAR":
             key = "mapclear-keeps-stale-overflow-links"
+        elif case.startswith("UNH"):
+            # lookup / comma-ok / delete with an unhashable dynamic key must panic on nil, empty,
+            # emptied and cleared maps too (maptype flag HashMightPanic, set by ssa/abi hashMightPanic)
+            key = "unhashable-key-no-panic-on-empty-map"
         elif n > 128:
             # the descriptor's KeySize / ValueSize must be the pointer size for indirectly stored keys / elems
             key = "map-slot-size-of-indirect-key-or-elem"
@@ -171,6 +175,56 @@ def e2e_stage(ck):
         ck.violation(key, "map program case %s: llgo exit %s output %r, go exit %s output %r" % (case, l[0], l[2][-200:], g[0], g[2][-200:]),
                      {"case": case, "program": "props/C06/e2e/main.go", "llgo": list(l), "go": list(g)})
     res["wall_s"] = round(time.time() - t0, 1)
+    return res
+
+
+ABI_H = os.path.join(HERE, "abi_harness", "abi_flags_test.go")
+BK = {"bool": "BBool", "int": "BInt", "float": "BFloat", "complex": "BComplex", "string": "BString", "unsafeptr": "BUnsafePtr"}
+
+
+def kty_term(t):
+    k = t["k"]
+    if k == "basic":
+        return "(KBasic %s)" % BK[t["b"]]
+    if k == "ptr":
+        return "KPtr"
+    if k == "chan":
+        return "KChan"
+    if k == "iface":
+        return "KIface"
+    if k == "arr":
+        return "(KArr %d %s)" % (t.get("n", 0), kty_term(t["e"]))
+    if k == "named":
+        return "(KNamed %s)" % kty_term(t["e"])
+    return "(KStruct [%s])" % "; ".join(kty_term(f) for f in t.get("fs") or [])
+
+
+def flags_stage(ck):
+    """ssa/abi hashMightPanic / IsReflexive / needkeyupdate / MapTypeFlags on generated key types
+    (go test -overlay in /repo/ssa/abi) against the Coq model C06/Flags.v"""
+    out = os.path.join(ck.work, "abi_flags.jsonl")
+    n = {"quick": 600, "thorough": 20000}[ck.tier]
+    rc, log = ck.go_test_overlay("ssa/abi", {"zz_verif_test.go": ABI_H}, env={"VERIF_OUT": out, "VERIF_N": str(n)})
+    res = {"cases": 0, "classes": {}}
+    if rc != 0 or not os.path.exists(out):
+        ck.correspondence_broken("harness:ssa/abi", log[-2000:])
+        return res
+    recs = []
+    for line in open(out):
+        r = json.loads(line)
+        if r["kind"] == "viol":
+            ck.violation(r["key"], r["what"], r)
+        else:
+            recs.append(r)
+    cl = collections.Counter(r["class"] for r in recs)
+    res = {"cases": len(recs), "classes": dict(cl), "distinct_types": len(set(r["str"] for r in recs))}
+    hdr = "From LLGoV Require Import C06.Flags.\nLocal Open Scope N_scope.\n"
+    terms = ["(%s, %d)" % (kty_term(r["ty"]), r["flags"]) for r in recs]
+    bad = ck.coq_mismatches(hdr, terms, "key_flags", "N.eqb", "c06_flags", shard=max(1, (len(terms) + 3) // 4))
+    if bad:
+        first = recs[bad[0]]
+        ck.correspondence_broken("C06.Flags/key_flags", {"n_mismatch": len(bad), "type": first["str"], "tree": first["ty"],
+                                                        "flags_and_28": first["flags"], "hmp": first["hmp"], "refl": first["refl"], "upd": first["upd"]})
     return res
 
 
@@ -186,8 +240,9 @@ def run(ck):
     ck.coq_build("C06")
     ck.coq_props("LLGoV.C06.Props", "theories/C06/Props.v")
 
-    e2e_pool = ThreadPoolExecutor(1)
+    e2e_pool = ThreadPoolExecutor(2)
     e2e_future = e2e_pool.submit(e2e_stage, ck)
+    flags_future = e2e_pool.submit(flags_stage, ck)
 
     mod, err = modbuild.build(ck, H)
     if err:
@@ -347,6 +402,13 @@ def run(ck):
         cov["typed_nan_keys"] += r["nans"]
         cov["typed_maxB"] = max(cov["typed_maxB"], r["maxB"])
     ck.add_cov(evaluations=nops, nontrivial=len(hists) + len(typed) + len(oracle_only), classes=dict(classes), reached=dict(cov))
+    try:
+        flags_res = flags_future.result(timeout=900)
+    except Exception as ex:                     # noqa: BLE001
+        flags_res = {"cases": 0}
+        ck.correspondence_broken("ssa/abi:stage", repr(ex))
+    ck.cov["ssa_abi_key_flags"] = flags_res
+    ck.add_cov(evaluations=flags_res.get("cases", 0), nontrivial=flags_res.get("distinct_types", 0))
     ck.cov["layer2_growth_in_replays"] = grow_cov
     ck.cov["e2e"] = e2e_res
     ck.add_cov(evaluations=e2e_res["cases"])
